@@ -278,7 +278,7 @@ def contCorr : JL.Container → List L → Bool
 
 def termCorr (td : JL.TermDef) (d : JLC.TermDef) : Bool :=
   d.iri == .iri td.iri && d.pfx == td.pfx && typCorr td.typ d.typeMapping && contCorr td.cont d.container &&
-  d.language == td.lang && !d.reverse && d.direction.isNone && d.index.isNone && d.nest.isNone && d.context.isNone
+  (td.typ != .none || d.language == td.lang) && !d.reverse && d.direction.isNone && d.index.isNone && d.nest.isNone && d.context.isNone
 
 /-- what differs between a context of the fragment semantics and one of the model (empty = they correspond) -/
 def fragDiff (sc : JL.Ctx) (c : Context PIRI.ParsedIRI) : List String :=
@@ -337,7 +337,21 @@ def handle (op : String) (args : List String) : Option String :=
         | .ok c =>
           let d := fragDiff sc c
           pure (if d.isEmpty then "agree:" ++ toString sc.terms.length else "DISAGREE:" ++ String.intercalate "+" d)
-        | .err e => pure ("DISAGREE:model-error:" ++ errName e)
+        | .err e =>
+          -- the fragment's `absIri` is coarser than the IRI parser: a `@base`/`@vocab` string net/url rejects
+          let ctxObjs : List (List (L × Json)) := match j with
+            | .obj ms => [ms]
+            | .arr xs => xs.filterMap fun x => match x with | .obj ms => some ms | _ => none
+            | _ => []
+          let baseRejected := ctxObjs.any fun ms => match getKey kBase ms with
+            | some (.str s) => (match piriOps.parse s with | .err => true | _ => false)
+            | _ => false
+          let vocabRejected := ctxObjs.any fun ms => match getKey kVocab ms with
+            | some (.str s) => piriOps.goAbs s == .no
+            | _ => false
+          if e == .invalidBaseIRI && baseRejected then pure "outside:iri-syntax"
+          else if e == .invalidVocabMapping && m == Mode.v10 && vocabRejected then pure "outside:iri-syntax"
+          else pure ("DISAGREE:model-error:" ++ errName e)
         | .unmodelled => pure "unmodelled"
         | .panic => pure "DISAGREE:panic"
         | .fuel => pure "DISAGREE:fuel"
